@@ -118,6 +118,8 @@ val adel : n -> (n * 'a1) list -> (n * 'a1) list
 
 val aset : n -> 'a1 -> (n * 'a1) list -> (n * 'a1) list
 
+val is_nil : 'a1 list -> bool
+
 val nodupb : n list -> bool
 
 type owner =
